@@ -5,12 +5,14 @@ package ice
 // transcription of the documented precedence.
 
 import (
+	"encoding/json"
 	"fmt"
 	"net"
 	"sort"
 	"strings"
 	"sync"
 	"sync/atomic"
+	"time"
 )
 
 func init() { registerCheck("C19", checkC19) }
@@ -635,8 +637,201 @@ func checkC19(c *runCtx) {
 		}
 		c.violation(finding, fmt.Sprintf("%s — %d lookups, first: %s", n, cl.n, cl.example), cl.replay)
 	}
+	// ---- application while gathering: replace substitutes the local address (an empty list drops the candidate),
+	// append adds to it (an empty list changes nothing). Every list of <= 2 rules over a pool, with and without a UDP
+	// mux, runs one real gathering cycle; the published host / mapped server-reflexive candidates are compared with what
+	// the statement derives from the lookup result (the lookup itself is judged above, so the mapper's own answer is used).
+	gatherRuns, gatherProblems := c19gather(c)
+	evals += int64(gatherRuns)
+	nontrivial += int64(gatherRuns)
+	for _, gp := range gatherProblems {
+		c.violation(gp.finding, "application while gathering: "+gp.msg, gp.replay)
+	}
+	c.set("gathering_runs", gatherRuns)
 	c.set("rule_lists", int(lists))
 	c.set("evaluations", int(evals))
 	c.set("distinct_nontrivial", int(nontrivial))
 	c.set("rule", "one evaluation = one (rule list, lookup key) compared between the implementation (sanitize + compile + findExternalIPs) and the reference; lists are enumerated without repetition per part (all lists of length 0-2 over the pools, length 3 over the reduced pool, every ordering of every 4..N subset of the specificity ladder, every legacy list of <=3 entries); non-trivial = the reference says some rule matches the key")
+}
+
+type c19gp struct {
+	finding string
+	msg     string
+	replay  any
+}
+
+func c19gather(c *runCtx) (int, []c19gp) {
+	host, srflx := CandidateTypeHost, CandidateTypeServerReflexive
+	pool := []AddressRewriteRule{
+		{External: []string{"203.0.113.5"}, AsCandidateType: host},
+		{External: []string{"203.0.113.5"}, AsCandidateType: host, Mode: AddressRewriteAppend},
+		{External: []string{"203.0.113.5", "203.0.113.6"}, AsCandidateType: host, Mode: AddressRewriteReplace},
+		{External: nil, AsCandidateType: host, Mode: AddressRewriteReplace},
+		{External: nil, AsCandidateType: host, Mode: AddressRewriteAppend},
+		{External: []string{"203.0.113.7"}, Iface: "eth0", AsCandidateType: host, Mode: AddressRewriteReplace},
+		{External: []string{"203.0.113.8"}, Local: "192.168.1.2", AsCandidateType: host, Mode: AddressRewriteReplace},
+		{External: []string{"203.0.113.9"}, Local: "10.0.0.1", AsCandidateType: host, Mode: AddressRewriteAppend},
+		{External: []string{"203.0.113.20"}, AsCandidateType: srflx},
+		{External: []string{"203.0.113.21", "203.0.113.22"}, Iface: "eth1", AsCandidateType: srflx, Mode: AddressRewriteAppend},
+	}
+	var lists [][]AddressRewriteRule
+	lists = append(lists, nil)
+	for i := range pool {
+		lists = append(lists, []AddressRewriteRule{pool[i]})
+		for j := range pool {
+			if i != j {
+				lists = append(lists, []AddressRewriteRule{pool[i], pool[j]})
+			}
+		}
+	}
+	two := []gIface{{Name: "eth0", Up: true, Addrs: []string{"10.0.0.1"}}, {Name: "eth1", Up: true, Addrs: []string{"192.168.1.2"}}}
+	type job struct {
+		rules []AddressRewriteRule
+		mux   string
+	}
+	var jobs []job
+	for _, l := range lists {
+		jobs = append(jobs, job{l, ""}, job{l, "10.0.0.1:7000"})
+	}
+	var mu sync.Mutex
+	var problems []c19gp
+	seen := map[string]bool{}
+	for idx := range jobs { // one bubble at a time: the worlds share package-level hooks
+		jb := jobs[idx]
+		var msgs []string
+		inBubble(c.t, func() {
+			cfg := gatherCfg{Ifaces: two, NetTypes: []string{"udp4"}, CandTypes: []string{"host", "srflx"}, UDPMux: jb.mux}
+			raw, _ := json.Marshal(cfg)
+			gw := newGatherWorld(raw)
+			defer gw.Close()
+			// rules without externals are refused by the public option: compile and install directly (as part 1 does)
+			m, err := newAddressRewriteMapper(jb.rules)
+			if err != nil {
+				return // an invalid list: nothing to apply
+			}
+			gw.a.addressRewriteMapper = m
+			if err := gw.a.GatherCandidates(); err != nil {
+				msgs = append(msgs, "GatherCandidates: "+err.Error())
+
+				return
+			}
+			quiesce()
+			for i := 0; i < 10; i++ {
+				if st, _ := gw.a.GetGatheringState(); st == GatheringStateComplete {
+					break
+				}
+				time.Sleep(6 * time.Second)
+				quiesce()
+			}
+			// expected
+			wantHost, wantSrflx := map[string]int{}, map[string]int{}
+			type la struct{ ip, iface string }
+			locals := []la{{"10.0.0.1", "eth0"}, {"192.168.1.2", "eth1"}}
+			if jb.mux != "" {
+				locals = []la{{"10.0.0.1", ""}} // the mux socket; the lookup carries no interface
+			}
+			lookup := func(t CandidateType, ip, iface string) (ips []string, matched bool, mode AddressRewriteMode) {
+				if m == nil {
+					return nil, false, 0
+				}
+				got, matched, mode, err := m.findExternalIPs(t, ip, iface)
+				if err != nil {
+					return nil, false, 0
+				}
+				for _, g := range got {
+					ips = append(ips, g.String())
+				}
+
+				return ips, matched, mode
+			}
+			for _, l := range locals {
+				ips, matched, mode := lookup(host, l.ip, l.iface)
+				switch {
+				case !matched:
+					wantHost[l.ip]++
+				case mode == AddressRewriteReplace:
+					for _, e := range ips {
+						wantHost[e]++
+					}
+				default:
+					wantHost[l.ip]++
+					for _, e := range ips {
+						wantHost[e]++
+					}
+				}
+			}
+			if m != nil && m.hasCandidateType(srflx) {
+				// mapped server-reflexive candidates are gathered on one wildcard socket: the lookup key is the unspecified
+				// address without an interface, so only unscoped rules can match; nothing matching = nothing to advertise
+				ips, matched, _ := lookup(srflx, "0.0.0.0", "")
+				if matched {
+					for _, e := range ips {
+						wantSrflx[e+" base 0.0.0.0"] = 1
+					}
+				}
+			}
+			gotHost, gotSrflx := map[string]int{}, map[string]int{}
+			for _, line := range gw.candLog {
+				if line == "nil" {
+					continue
+				}
+				cd, err := UnmarshalCandidate(line)
+				if err != nil {
+					msgs = append(msgs, "published candidate does not parse: "+line)
+
+					continue
+				}
+				switch cd.Type() {
+				case CandidateTypeHost:
+					gotHost[cd.Address()]++
+				case CandidateTypeServerReflexive:
+					base := ""
+					if ra := cd.RelatedAddress(); ra != nil {
+						base = ra.Address
+					}
+					gotSrflx[cd.Address()+" base "+base]++
+				default:
+				}
+			}
+			// two sockets of the fake network get the same port, so one external address mapped from both is one
+			// candidate: compare which addresses are published, not how often
+			for k := range gotHost {
+				gotHost[k] = 1
+			}
+			for k := range wantHost {
+				wantHost[k] = 1
+			}
+			if fmt.Sprint(gotHost) != fmt.Sprint(wantHost) {
+				msgs = append(msgs, fmt.Sprintf("host candidates published %v, the rules give %v", gotHost, wantHost))
+			}
+			if gotSrflx["0.0.0.0 base 0.0.0.0"] > 0 && wantSrflx["0.0.0.0 base 0.0.0.0"] == 0 {
+				msgs = append(msgs, "S29:a server-reflexive candidate with the unspecified address 0.0.0.0 is published: no server-reflexive rule matches the wildcard socket of the mapped gatherer (or an append rule matched without externals), and its own address is advertised instead of nothing")
+				delete(gotSrflx, "0.0.0.0 base 0.0.0.0")
+			}
+			if fmt.Sprint(gotSrflx) != fmt.Sprint(wantSrflx) {
+				msgs = append(msgs, fmt.Sprintf("mapped server-reflexive candidates published %v, the rules give %v", gotSrflx, wantSrflx))
+			}
+		})
+		if len(msgs) == 0 {
+			continue
+		}
+		var rs []string
+		for _, r := range jb.rules {
+			rs = append(rs, c19ruleString(r))
+		}
+		mu.Lock()
+		for _, msg := range msgs {
+			finding := ""
+			if strings.HasPrefix(msg, "S29:") {
+				finding, msg = "S29", msg[4:]
+			}
+			if !seen[msg] && len(problems) < 20 {
+				seen[msg] = true
+				problems = append(problems, c19gp{finding, fmt.Sprintf("%s; e.g. rules=%s mux=%q", msg, strings.Join(rs, " "), jb.mux), map[string]any{"part": "gathering", "rules": jb.rules, "udp_mux": jb.mux}})
+			}
+		}
+		mu.Unlock()
+	}
+
+	return len(jobs), problems
 }
